@@ -58,8 +58,8 @@ class _Continue(Exception):
     pass
 
 
-class _Replay(Exception):
-    """internal: a new decision point was reached beyond the prefix (never escapes explore())"""
+class _Infeasible(Exception):
+    """internal: no alternative of a decision is satisfiable together with the path condition"""
 
 
 # -- symbolic values ----------------------------------------------------------------------------
@@ -162,6 +162,8 @@ class Path(object):
         self.outcome = None  # ("normal",) | ("raise", exc) | ("return", v) | ("break",) | ("continue",)
         self.locals = None
         self.notes = []
+        self.known = {}  # z3 term id -> concrete string it equals on this path
+        self.known_not = {}  # z3 term id -> strings it differs from on this path
 
 
 class Executor(object):
@@ -178,6 +180,10 @@ class Executor(object):
         self.bounds_used = set()
         self.self_obj = None
         self.steps = 0
+        self.prune = True
+        self.assume = []  # harness assumptions (used for pruning only; the harness adds them to its queries)
+        self.prune_time = 0.0
+        self.prune_queries = {}
 
     # .. path exploration ..................................................................
 
@@ -209,13 +215,35 @@ class Executor(object):
                 self.path.outcome = ("continue",)
             except Unsupported as u:
                 self.path.outcome = ("unsupported", str(u))
+            except _Infeasible:
+                self.path.outcome = ("infeasible",)
             self.path.pc = self.path.pc + self.side
-            done.append(self.path)
+            if self.path.outcome[0] != "infeasible":
+                done.append(self.path)
             # schedule the alternatives of decisions taken beyond the prefix
-            for i, nalt in self.alts:
-                for alt in range(1, nalt):
+            for i, others in self.alts:
+                for alt in others:
                     stack.append(self.path.decisions[:i] + [alt])
         return done
+
+    def feasible(self, cond):
+        """cheap pruning of forks: False only if the solver PROVED pc & cond unsatisfiable"""
+        if not self.prune:
+            return True
+        s = z3.Solver()
+        s.set("timeout", 2000)
+        for c in self.path.pc:
+            s.add(c)
+        for c in self.side:
+            s.add(c)
+        for c in self.assume:
+            s.add(c)
+        s.add(cond)
+        t0 = time.time()
+        r = s.check()
+        self.prune_time += time.time() - t0
+        self.prune_queries[str(r)] = self.prune_queries.get(str(r), 0) + 1
+        return r != z3.unsat
 
     def decide(self, conds):
         """fork over mutually exclusive, jointly exhaustive conditions; returns the index taken"""
@@ -224,8 +252,11 @@ class Executor(object):
         if i < len(self.prefix):
             k = self.prefix[i]
         else:
-            k = 0
-            self.alts.append((i, len(conds)))
+            feas = [j for j, c in enumerate(conds) if self.feasible(c)]
+            if not feas:
+                raise _Infeasible()
+            k = feas[0]
+            self.alts.append((i, feas[1:]))
         self.path.decisions.append(k)
         self.path.pc.append(conds[k])
         return k
@@ -254,10 +285,23 @@ class Executor(object):
         candidate it equals on this path, or None (equals none of them)"""
         cands = list(candidates)
         z = s.z
+        tid = z.get_id()
+        # what earlier decisions of this path already fixed about this term (no new fork needed)
+        if tid in self.path.known:
+            c = self.path.known[tid]
+            return c if c in cands else None
+        excluded = self.path.known_not.setdefault(tid, set())
+        cands = [c for c in cands if c not in excluded]
+        if not cands:
+            return None
         conds = [z == z3.StringVal(c) for c in cands]
-        conds.append(z3.And([z != z3.StringVal(c) for c in cands]) if cands else z3.BoolVal(True))
+        conds.append(z3.And([z != z3.StringVal(c) for c in cands]))
         k = self.decide(conds)
-        return cands[k] if k < len(cands) else None
+        if k < len(cands):
+            self.path.known[tid] = cands[k]
+            return cands[k]
+        excluded.update(cands)
+        return None
 
     def new_str(self, hint):
         self.fresh += 1
